@@ -6,6 +6,7 @@ import (
 	"sync"
 	"time"
 
+	"verifharness/contract"
 	"verifharness/core"
 	"verifharness/memstore"
 	"verifharness/oracle"
@@ -55,6 +56,10 @@ func init() {
 		waves := [][2]int{{0, len(qs)}}
 		if len(qs) >= 4 && c.Delay%2 == 0 {
 			waves = [][2]int{{0, len(qs) / 2}, {len(qs) / 2, len(qs)}}
+		}
+		if c.Delay%3 != 0 {
+			contract.InstallPerturbation(c.Delay)
+			defer contract.Uninstall()
 		}
 		for _, w := range waves {
 			var wg sync.WaitGroup
